@@ -66,11 +66,13 @@ def specs_from(seq):
             for k, (n, t, c) in enumerate(seq)]
 
 
-def cycles_checks(specs, cycles, perm, cons=None):
+def cycles_checks(specs, cycles, perm, cons=None, ordered=True):
     """partition / exclusivity / order-without-permutation on a cycles list of the real code.  `cons`: the constraint
     descriptors the Scheduler was built with (None = default): exclusivity is required when `qubit_constraint` is among
     them (first, last, anywhere); for every list, inside a cycle (in the returned order) every later member must have been
-    allowed against every earlier member by EVERY constraint function (verdicts evaluated on the specs)."""
+    allowed against every earlier member by EVERY constraint function (verdicts evaluated on the specs).  `ordered=False`:
+    the cycles were reconstructed from gate_cycle_indices, the order of approval inside a cycle is not known -- the ordered
+    constraint functions (`["f", i, j]`) are then not evaluated."""
     n = len(specs)
     flat = [i for c in cycles for i in c]
     if sorted(flat) != list(range(n)):
@@ -86,6 +88,8 @@ def cycles_checks(specs, cycles, perm, cons=None):
                 return f"gates {a} and {b} share a qubit inside one cycle ({cycles})" + (
                     f" although qubit_constraint is among the constraint functions {cons}" if cons is not None else "")
             for f in (cons or []):
+                if not ordered and not isinstance(f, str):
+                    continue
                 if not sc.cons_verdict(f, specs, b, a):
                     return (f"gates {a} and {b} are in one cycle ({cycles}) although the constraint function {f} of {cons} "
                             f"forbids {b} next to {a}")
@@ -136,6 +140,8 @@ class C05(PropertyCheck):
         "QipVerif.C05.tree_set_interpreted",
         "QipVerif.C05.self_commuting_names_realised",
         "QipVerif.C05.declared_never_opaque",
+        "QipVerif.C05.tree_long_targets_never_declared",
+        "QipVerif.C05.C05_counterexample_targets_only",
         "QipVerif.C05.schedule_den_C_full",
         "QipVerif.C05.schedule_den_C_full_fwd",
         "QipVerif.C05.schedule_den_C_tree",
@@ -192,7 +198,8 @@ class C05(PropertyCheck):
                   "every later member was approved against every earlier one by every function) hold, cycle_disjoint_cons holds whenever "
                   "qubit_constraint is in the list (first, last, anywhere), and C05_constraints_absent shows that without it two commuting "
                   "gates sharing a qubit are put into one cycle; the correspondence and the oracles run 21 method values x 21 constraint "
-                  "lists.")
+                  "lists, and repeat_num with both gate-level output forms (return_cycles_list=True with repeat_num > 0 raises TypeError "
+                  "on a tree without fixes/C05-3.patch; the model's verdict follows the variant read from the source).")
     level_note = ("Full strength on the repaired tree: partition, exclusivity, order and same-unitary are theorems without side "
                   "conditions. What remains a hypothesis of the unitary clause is what each position IS (GateOK: which operator a gate "
                   "object denotes): for IR gates the semantics semD (exact Z[zeta16] library / generated rotation matrices, tied to the "
@@ -200,7 +207,7 @@ class C05(PropertyCheck):
                   "documented formula on every check; gates outside the library are arbitrary supported operators. The *_partial / "
                   "_safe theorems and the counter-examples describe the old rule only. Trusted: Lean kernel; the translator "
                   "py/translate/sched.py (small statement language, validated by comparing the regenerated rule with the code on "
-                  "152 100 instruction pairs); the harness (which shadows `set` with an ascending-iteration subclass and `shuffle` "
+                  "270 400 instruction pairs); the harness (which shadows `set` with an ascending-iteration subclass and `shuffle` "
                   "with a recorder in the scheduler module's namespace); stability of Python's list.sort.")
     technique = ("Lean 4 proof (invariants of the dependency-graph loops and of list scheduling for an arbitrary re-ordering "
                  "oracle; trace-monoid lemma; operator algebra of embedded controlled / exchange-symmetric gates over C) + "
@@ -223,6 +230,13 @@ class C05(PropertyCheck):
         "gates are built by the library's gate classes / QubitCircuit.add_gate, which refuse non-canonical shapes (checked on every "
         "run for every name of _SELF_COMMUTING_GATES); the bare constructor Gate('CNOT', targets=[0, 1]) (no controls) is outside "
         "the theorem: for such objects the rule compares sorted target lists that do not determine the operator",
+        "the targets-only form of the three-qubit gates that the library's own classes build (TOFFOLI([c1, c2, t]), "
+        "FREDKIN([c, t1, t2]): all qubits in `targets`, controls None) is NOT a canonical shape: on a tree whose rule has the guard "
+        "on gates with more than two targets (lenBound, fixes/C05-2.patch) such an instruction is never flagged "
+        "(tree_long_targets_never_declared) and is covered by the opaque clause of GateOK; on a tree without the guard two "
+        "such TOFFOLI gates with equal sorted targets are declared commuting although they do not commute (finding, "
+        "C05_counterexample_targets_only; the oracles skip the unitary clause exactly for circuits containing such a pair until "
+        "the repair is applied)",
         "user-defined gates do not reuse a name of _SELF_COMMUTING_GATES or CNOT / X / RX / Z / RZ (QubitCircuit.user_gates takes "
         "precedence over the library for such a name, the scheduler only sees the name)",
         "Scheduler.schedule is a function of its arguments, the constructor settings and the shuffle outcomes (the model is "
@@ -237,7 +251,7 @@ class C05(PropertyCheck):
     rule = ("case = (gate sequence as (name, targets, controls), method, allow_permutation, recorded shuffles, calls made before "
             "on the same Scheduler object); non-trivial = at least two gates sharing a qubit; cycles lists, gate_cycle_indices "
             "and dependency edges are compared exactly; plus every ordered pair of instructions over 13 names x 5 control lists x "
-            "6 target lists for commutation_rules (model rule and regenerated rule)")
+            "8 target lists for commutation_rules (model rule and regenerated rule)")
 
     # ----------------------------------------------------------------------------------
     def _run_batch(self, ctx, res, batch, tag):
@@ -293,6 +307,10 @@ class C05(PropertyCheck):
                 if st == "ok" and not repeat:
                     log2 = sc.ShuffleLog(replay=log.log) if log else None     # the cycles list itself, same shuffles
                     st, cyc = sc.impl_schedule(obj, method, perm, log2, cons=cons, return_cycles_list=True, **kw)
+                elif st == "ok" and repeat and shuf is not None:
+                    # the argument combination return_cycles_list=True with repeat_num > 0, on the same shuffles
+                    cyc = sc.impl_schedule(obj, method, perm, sc.ShuffleLog(replay=shuf), cons=cons,
+                                           return_cycles_list=True, **kw)
                 r = (st, idx, cyc, shuf, None)
             for sp, rr, rep, edited in ((specs, r, repeat, False),) + (((derived[0], derived[1], 0, True),) if derived else ()):
                 cases.append((sp, N, method, perm, shuffle, rep, edited, cons))
@@ -331,7 +349,7 @@ class C05(PropertyCheck):
             if mm:
                 res.disagree(inp, mm[0], mm[1], "used_qubits of an instruction", w)
             if line is None:
-                self._compare_repeat(ctx, res, inp, w, specs, method, perm, repeat, st, idx, shuf)
+                self._compare_repeat(ctx, res, inp, w, specs, method, perm, repeat, st, idx, shuf, cyc)
                 continue
             m = sc.parse_model(next(it))
             if m["status"] != "ok" or st != "ok":
@@ -345,14 +363,17 @@ class C05(PropertyCheck):
             elif shuf is not None and m["used"] != len(shuf):
                 res.disagree(inp, m["used"], len(shuf), "number of shuffle calls", w)
 
-    def _compare_repeat(self, ctx, res, inp, w, specs, method, perm, repeat, st, idx, shuf):
+    def _compare_repeat(self, ctx, res, inp, w, specs, method, perm, repeat, st, idx, shuf, cyc_call=None):
         """repeat_num: the model is run once per repetition on the shuffles that repetition consumed;
-        the selection rule of `schedule` (first result with the smallest maximal cycle index) is applied here."""
+        the selection rule of `schedule` (first result with the smallest maximal cycle index) is applied here.
+        `cyc_call`: (status, result) of the same call with return_cycles_list=True -- the cycles list of the selected
+        repetition on a tree whose repeat loop measures a cycles list by its length, a TypeError otherwise (the variant is
+        read from the source, sc.repeat_cycles_ok)."""
         if st != "ok":
             res.disagree(inp, "ok", st, "verdict (repeat_num)", w)
             return
         fields = [fields_of(s) + (sc.DEN,) for s in specs]
-        rest, best, best_len = list(shuf), [0], 4294967296
+        rest, best, best_len, best_cyc = list(shuf), [0], 4294967296, None
         drv = ctx.driver("drv_sched")
         for _ in range(repeat):
             m = sc.parse_model(drv.run([sc.model_line(method, perm, fields, rest, w.get("cons"))])[0])
@@ -361,7 +382,16 @@ class C05(PropertyCheck):
                 return
             rest = rest[m["used"]:]
             if max(m["idx"]) < best_len:
-                best, best_len = m["idx"], max(m["idx"])
+                best, best_len, best_cyc = m["idx"], max(m["idx"]), m["cycles"]
+        if cyc_call is not None and not rest:
+            res.case(dict(inp, return_cycles_list=True), nontrivial=True, tags=["repeat+cycles"])
+            w2 = dict(w, repeat_cycles=True)
+            if sc.repeat_cycles_ok():
+                if cyc_call[0] != "ok" or cyc_call[1] != best_cyc:
+                    res.disagree(dict(inp, return_cycles_list=True), best_cyc, list(cyc_call), "cycles list (repeat_num)", w2)
+            elif not cyc_call[0].startswith("other:TypeError"):
+                res.disagree(dict(inp, return_cycles_list=True), "TypeError (max of a list of lists compared with an int)",
+                             list(cyc_call), "verdict (repeat_num, return_cycles_list)", w2)
         if rest:
             res.disagree(inp, "shuffles left over", len(rest), "number of shuffle calls (repeat_num)", w)
         elif best != list(idx):
@@ -371,9 +401,9 @@ class C05(PropertyCheck):
         """commutation_rules over the abstraction it depends on: names (the five it tests for, names sorting
         before / between / after them, equal or different) x controls x targets"""
         _, Instruction, Scheduler, Gate, _ = sc._mods()
-        names = ["CNOT", "X", "RX", "Z", "RZ", "BERKELEY", "SNOT", "Y", "a", "CNOT2", "QASMU", "FREDKIN", "H"]
+        names = ["CNOT", "X", "RX", "Z", "RZ", "BERKELEY", "SNOT", "TOFFOLI", "a", "CNOT2", "QASMU", "FREDKIN", "H"]
         ctrls = [None, [0], [1], [0, 1], [1, 0]]
-        tgts = [[0], [1], [2], [0, 1], [1, 2], [2, 1]]
+        tgts = [[0], [1], [2], [0, 1], [1, 2], [2, 1], [0, 1, 2], [0, 2, 1]]
         items = []
         for nm in names:
             for c in ctrls:
@@ -583,9 +613,9 @@ class C05(PropertyCheck):
                 res.disagree(inp, m.get("edges"), e, "dependency edges", None)
 
     # ----------------------------------------------------------------------------------
-    def _judge(self, specs, N, perm, cycles, scope, cons=None):
+    def _judge(self, specs, N, perm, cycles, scope, cons=None, ordered=True):
         """the property on one returned cycles list -> (fails, detail)"""
-        bad = cycles_checks(specs, cycles, perm, cons)
+        bad = cycles_checks(specs, cycles, perm, cons, ordered)
         if bad:
             return True, bad
         if scope == "covered" and perm:
@@ -622,7 +652,8 @@ class C05(PropertyCheck):
                 continue
             if st != "ok":
                 return True, f"call {k + 1} of {n} on one Scheduler object: schedule raised: {st}"
-            f, d = self._judge(specs, call["N"], perm, sc.cycles_of(call, r), w.get("scope"), cons)
+            f, d = self._judge(specs, call["N"], perm, sc.cycles_of(call, r), w.get("scope"), cons,
+                               ordered=bool(call.get("cycles")))
             if f:
                 return True, (f"call {k + 1} of {n} on one Scheduler object (circuit "
                               f"{[[g[0], g[1], g[2]] for g in specs]}): " + d)
@@ -641,10 +672,18 @@ class C05(PropertyCheck):
         qc = sc.make_circuit(N, specs)
         if repeat:
             log = sc.ShuffleLog(replay=shuf) if shuf is not None else sc.ShuffleLog(random.Random(w.get("shuffle_seed", 0)))
-            st, idx = sc.impl_schedule(qc, method, perm, log, cons=cons, repeat_num=repeat)
-            if st != "ok":
-                return True, f"schedule raised: {st}"
-            cycles = [[i for i, c in enumerate(idx) if c == k] for k in range(max(idx) + 1)]
+            if w.get("repeat_cycles"):
+                if w.get("scope") == "covered" and not sc.repeat_cycles_ok():
+                    return False, ("not evaluated: return_cycles_list=True with repeat_num > 0 raises TypeError on a tree whose "
+                                   "repeat loop takes max() of the cycles list (finding repaired by fixes/C05-3.patch)")
+                st, cycles = sc.impl_schedule(qc, method, perm, log, cons=cons, return_cycles_list=True, repeat_num=repeat)
+                if st != "ok":
+                    return True, f"schedule(return_cycles_list=True, repeat_num={repeat}) raised: {st}"
+            else:
+                st, idx = sc.impl_schedule(qc, method, perm, log, cons=cons, repeat_num=repeat)
+                if st != "ok":
+                    return True, f"schedule raised: {st}"
+                cycles = [[i for i, c in enumerate(idx) if c == k] for k in range(max(idx) + 1)]
         else:
             log = None
             if shuf is not None:
@@ -663,7 +702,8 @@ class C05(PropertyCheck):
                 by_idx = [sorted(i for i, c in enumerate(idx) if c == k) for k in range(max(idx) + 1)]
                 if by_idx != [sorted(c) for c in cycles]:
                     return True, f"gate_cycle_indices {list(idx)} do not describe the returned cycles {cycles}"
-        return self._judge(specs, N, perm, cycles, w.get("scope"), cons)
+        return self._judge(specs, N, perm, cycles, w.get("scope"), cons,
+                           ordered=not (repeat and not w.get("repeat_cycles")))
 
     HIST_POOL = [("CNOT", [1], [0]), ("CNOT", [2], [0]), ("CNOT", [0], [1]), ("SNOT", [0], []), ("X", [1], []),
                  ("RZ", [0], []), ("RX", [0], []), ("Z", [1], []), ("SWAP", [0, 1], [])]
@@ -737,6 +777,11 @@ class C05(PropertyCheck):
                         continue
                     yield {"N": 3, "gates": specs_from(seq), "method": m, "perm": True, "shuf": None, "repeat": 0,
                            "scope": "covered", "cons": cons, "also_indices": True}
+            # the other arguments of schedule(): repeat_num with both gate-level output forms
+            for m in ("ASAP", "ALAP"):
+                for rc in (False, True):
+                    yield {"N": 3, "gates": specs_from(seq), "method": m, "perm": True, "shuf": None, "shuffle_seed": 1,
+                           "repeat": 2, "repeat_cycles": rc, "scope": "covered"}
 
     def _systematic(self):
         yield from self._constructor_witnesses()
@@ -763,6 +808,8 @@ class C05(PropertyCheck):
             w["method"] = rng.choice(sc.METHODS_ODD)
         if rng.random() < 0.25:
             w["cons"] = rng.choice(sc.CONS_LISTS)
+        if w["repeat"] and rng.random() < 0.5:
+            w["repeat_cycles"] = True
         return w
 
     def oracle_search(self, ctx, budget_s):
@@ -797,6 +844,9 @@ class C05(PropertyCheck):
         pairs = [[("QASMU", [0], []), ("QASMU", [0], [])], [("R", [0], []), ("R", [0], [])],
                  [("MS", [0, 1], []), ("MS", [0, 1], [])], [("RZX", [0, 1], []), ("RZX", [1, 0], [])],
                  [("FREDKIN", [1, 2], [0]), ("FREDKIN", [2, 3], [0])],
+                 [("TOFFOLI", [0, 1, 2], []), ("TOFFOLI", [0, 2, 1], [])], [("TOFFOLI", [0, 1, 2], []), ("TOFFOLI", [1, 0, 2], [])],
+                 [("TOFFOLI", [2, 0, 1], []), ("TOFFOLI", [1], [0, 2])], [("FREDKIN", [0, 1, 2], []), ("FREDKIN", [1, 0, 2], [])],
+                 [("X", [2], []), ("TOFFOLI", [0, 1, 2], []), ("TOFFOLI", [2, 1, 0], []), ("X", [0], [])],
                  [("X", [1], []), ("MS", [0, 1], []), ("MS", [1, 0], []), ("X", [0], [])]]
         for seq in pairs:
             N = 1 + max(q for g in seq for q in g[1] + g[2])
